@@ -656,6 +656,7 @@ class _SetOperation(Selectable, Term):  # type:ignore[misc]
         the alias, otherwise the field will be rendered as SQL.
         """
         clauses = []
+        ctx = ctx.copy(subquery=True)  # a sub-query used as a sort key is a parenthesised scalar sub-query
         selected_aliases = {s.alias for s in self.base_query._selects}
         for field, directionality in self._orderbys:
             term = (
@@ -1691,6 +1692,7 @@ class QueryBuilder(Selectable, Term):  # type:ignore[misc]
         otherwise the entire field will be rendered as SQL.
         """
         clauses = []
+        ctx = ctx.copy(subquery=True)  # a sub-query used as a grouping key is a parenthesised scalar sub-query
         selected_aliases = {s.alias for s in self._selects}
         for field in self._groupbys:
             if (alias := field.alias) and alias in selected_aliases:
@@ -1726,6 +1728,7 @@ class QueryBuilder(Selectable, Term):  # type:ignore[misc]
         the alias, otherwise the field will be rendered as SQL.
         """
         clauses = []
+        ctx = ctx.copy(subquery=True)  # a sub-query used as a sort key is a parenthesised scalar sub-query
         selected_aliases = {s.alias for s in self._selects}
         for field, directionality in self._orderbys:
             term = (
@@ -1746,7 +1749,7 @@ class QueryBuilder(Selectable, Term):  # type:ignore[misc]
         return " WITH ROLLUP"
 
     def _having_sql(self, ctx: SqlContext) -> str:
-        having = self._havings.get_sql(ctx)  # type:ignore[union-attr]
+        having = self._havings.get_sql(ctx.copy(subquery=True))  # type:ignore[union-attr]
         return f" HAVING {having}"
 
     def _offset_sql(self, ctx: SqlContext) -> str:
@@ -1761,11 +1764,12 @@ class QueryBuilder(Selectable, Term):  # type:ignore[misc]
 
     def _set_sql(self, ctx: SqlContext) -> str:
         field_ctx = ctx.copy(with_namespace=False)
+        value_ctx = ctx.copy(subquery=True)  # SET col=(SELECT ...): a sub-query value is parenthesised
         return " SET {set}".format(
             set=",".join(
                 "{field}={value}".format(
                     field=field.get_sql(field_ctx),
-                    value=value.get_sql(ctx),
+                    value=value.get_sql(value_ctx),
                 )
                 for field, value in self._updates
             )
